@@ -1,14 +1,86 @@
-"""C07 — checked arithmetic is total.  Same cases as C06 (plus >>), judged by definedness."""
+"""C07 — checked arithmetic is total.  Same cases as C06 (plus >>), judged by definedness; in addition
+release builds (CNL_RELEASE: `_impl::unreachable` is `__builtin_unreachable`, visible through the hook as UNREACHABLE)
+and static_integer / static_number operations at and next to full width of the word (`sn` lines, C11 model)."""
 import os, sys
 sys.path.insert(0, os.path.dirname(os.path.abspath(__file__)))
 import C06
 
+RT = {'nat': 'native_rounding_tag', 'nrst': 'nearest_rounding_tag', 'tpi': 'tie_to_pos_inf_rounding_tag', 'ninf': 'neg_inf_rounding_tag'}
+T3 = ['sat', 'thr', 'trp']
+
+
+def sn_tus(tier, seed):
+    """(rounding mode, overflow tag, D1, E1, D2, E2, bare static_integer)"""
+    # full width of int (31 digits) and of int64 (63 digits), both operands: the three rounding modes that adjust the
+    # truncated quotient x the checked tags; one digit less, mixed widths, a half-word and a byte; fractional exponents
+    base = [('nrst', 31, 0, 31, 0, True), ('tpi', 31, 0, 31, 0, True), ('ninf', 31, 0, 31, 0, True), ('nrst', 31, -8, 31, -8, False),
+            ('nrst', 63, 0, 63, 0, True), ('tpi', 63, -8, 63, -8, False), ('ninf', 63, 0, 63, 0, True), ('nat', 31, 0, 31, 0, True),
+            ('nrst', 30, 0, 31, 0, True), ('tpi', 31, -3, 30, 2, False), ('nrst', 62, 0, 63, 0, True), ('nrst', 15, 0, 15, 0, True),
+            ('ninf', 7, -2, 7, 0, False), ('nrst', 31, 0, 63, 0, True), ('tpi', 63, 0, 31, 0, True), ('nat', 63, -4, 63, -4, False)]
+    combos = []
+    for i, (r, d1, e1, d2, e2, bare) in enumerate(base):
+        for k, o in enumerate(T3):
+            # every combination under one tag per seed; the full-width divisions of the word under all three
+            if k == (i + seed) % 3 or (i < 7 and d1 == d2 and k == (i + seed + 1) % 3) or tier == 'thorough':
+                combos.append((r, o, d1, e1, d2, e2, bare))
+    res = []
+    per = 3
+    for i in range(0, len(combos), per):
+        lines = ['sn_ops<%s, %s, %d, %d, %d, %d, %s>(rng);' % (RT[r], C06.TAGS[o], d1, e1, d2, e2, 'true' if bare else 'false')
+                 for (r, o, d1, e1, d2, e2, bare) in combos[i:i + per]]
+        k = i // per
+        t = dict(name='C07_sn_%d' % k, src=C06._tu('C07', 1300 + i, lines), compiler='clang++' if k % 4 == 3 else 'g++',
+                 defines=['CNL_VERIF_OVERFLOW_PATH=%d' % (1 + k % 2)])
+        res.append(t)
+    return res
+
+
+def release_tus(tier, seed):
+    """trapping tag in a release build: every operator, both polarities, both detection paths; ++/--, wrapper shifts,
+    class-type representations, conversions"""
+    res = []
+    pairs = [('i32', 'i32'), ('u32', 'u32'), ('i64', 'i64'), ('i8', 'i8'), ('u64', 'u8'), ('i16', 'i64'), ('i32', 'u32'), ('u8', 'i32')]
+    CT = C06.CT
+    for path in (1, 2):
+        for h in range(2):
+            ps = pairs[h * 4:h * 4 + 4]
+            lines = []
+            for (a, b) in ps:
+                lines.append('pair<trapping_overflow_tag, %s, %s>(rng);' % (CT[a], CT[b]))
+                lines.append('{ std::vector<%s> lv; std::vector<%s> rv; operands<%s,%s>(rng, lv, rv); wrapped<trapping_overflow_tag, %s, %s>(lv, rv); }' % (
+                    CT[a], CT[b], CT[a], CT[b], CT[a], CT[b]))
+            res.append(dict(name='C07_rel_trp_p%d_%d' % (path, h), src=C06._tu('C07', 1400 + 10 * path + h, lines),
+                            compiler='clang++' if (path + h) % 2 == 0 else 'g++', defines=['CNL_VERIF_OVERFLOW_PATH=%d' % path, 'CNL_RELEASE']))
+    lines = ['wincdec<trapping_overflow_tag, %s>(rng);' % CT[t] for t in ['i8', 'u8', 'i16', 'i32', 'u32', 'i64', 'u64']]
+    lines += ['wclass<trapping_overflow_tag, rounding_integer<std::int32_t, native_rounding_tag>, std::int32_t>(rng);',
+              'wclass<trapping_overflow_tag, wide_integer<31, int>, std::int32_t>(rng);',
+              'wshift<trapping_overflow_tag, std::int32_t, std::uint32_t>(rng);', 'wshift<trapping_overflow_tag, std::int64_t, std::int64_t>(rng);',
+              'shift_dense<trapping_overflow_tag, std::int32_t, std::int32_t>(rng);', 'shift_dense<trapping_overflow_tag, std::int8_t, std::uint8_t>(rng);',
+              'shift_dense<trapping_overflow_tag, std::int64_t, std::int32_t>(rng);',
+              'wcvt<trapping_overflow_tag, std::int32_t, std::uint32_t>(rng);', 'wcvt<trapping_overflow_tag, std::int64_t, std::int8_t>(rng);',
+              'sxr<trapping_overflow_tag, std::int32_t, 0, 2, std::int32_t, -3, 10>(rng);',
+              'sn_ops<nearest_rounding_tag, trapping_overflow_tag, 31, 0, 31, 0, true>(rng);']
+    res.append(dict(name='C07_rel_trp_wrappers', src=C06._tu('C07', 1450, lines), compiler='g++',
+                    defines=['CNL_VERIF_OVERFLOW_PATH=%d' % (1 + seed % 2), 'CNL_RELEASE']))
+    return res
+
 
 def tus(tier, seed):
     res = C06.tus(tier, seed + 1000, table='C07')
+    res += sn_tus(tier, seed)
+    # debug and release builds alternate over the shared translation units (the model is the same for both:
+    # nothing the checked tags do may depend on the build), the dedicated release units come on top
+    for i, t in enumerate(res):
+        if i % 3 == 1 or tier == 'thorough' and i % 3 == 2:
+            t['defines'] = t.get('defines', []) + ['CNL_RELEASE']
+            t['name'] += '_release'
+    res += release_tus(tier, seed)
     for t in res:
         t['defines'] = t.get('defines', []) + ['VH_WITH_SHR']
     return res
 
 
-RULE = C06.RULE + "; non-trivial additionally requires the checked tag (saturated, throwing, trapping)"
+RULE = (C06.RULE + "; non-trivial additionally requires the checked tag (saturated, throwing, trapping); a third of the translation units and dedicated "
+        "trapping-tag units (every operator, both polarities, both paths) are release builds (CNL_RELEASE); static_integer / static_number "
+        "+ - * / and unary minus with 31 digits on int and 63 digits on int64 (and one digit less, mixed, 15, 7 digits), nearest / tie_to_pos_inf / neg_inf / "
+        "native rounding x saturated / throwing / trapping, magnitudes dense in the top two binades of the declared range, both signs")
